@@ -79,6 +79,7 @@ func TestCheck(t *testing.T) {
 	r.Assume("back-off is certain only while less than `duration` has passed since the first over-limit event and all `count` events fell within `period`; " +
 		"it is certainly over once `duration`+`period` have passed since the last over-limit event")
 	r.Assume("every unit of a large response is an event of the subnet's window; a unit that is certainly beyond the limit (and not swallowed by a back-off) is an over-limit event for the back-off count")
+	r.Assume("the events of a response happen when the response is counted (after the handler), not when its request was received; contexts carry dnsserver.RequestInfo.StartTime as on a real server")
 	r.Assume("a response of wire length S counts floor(S/estimate)..ceil(S/estimate) extra events when S >= estimate and none when S < estimate")
 	r.Assume("timestamps are after 1970 (RequestCounter treats UnixNano()<=0 as an empty slot)")
 
@@ -93,10 +94,12 @@ func TestCheck(t *testing.T) {
 	layer2Backoff(r)
 	layer2SpreadHits(r)
 	layer2LargeResp(r)
+	layer2SlowHandler(r)
 	layer2Concurrent(r)
 
 	layer3Profile(r)
 	layer3Stack(r)
+	layer3StackSlow(r)
 
 	r.Require("l1_adds", 100000)
 	r.Require("l1_steps_above", 10000)
@@ -120,6 +123,8 @@ func TestCheck(t *testing.T) {
 	r.Require("l2_large_resp_backoff_drop", 8)
 	r.Require("l2_large_resp_below_count_pass", 6)
 	r.Require("l2_large_resp_window_drop", 6)
+	r.Require("l2_slow_handler_window_drop", 8)
+	r.Require("l3_stack_slow_handler_dropped", 4)
 	r.Require("l3_profile_decided", 20)
 	r.Require("l1_steps_limit_zero", 10000)
 	r.Require("l3_profile_rps0_drop", 6)
@@ -477,6 +482,10 @@ type mEvent struct {
 	// beyond the limit when it was counted; in keyModel.hits, an over-limit
 	// event that is a unit of a large response.
 	resp bool
+	// lagged: the event was counted with a request context whose StartTime is
+	// certainly older than the moment of the call (a response produced by a
+	// slow handler).
+	lagged bool
 }
 
 type keyModel struct {
@@ -546,6 +555,12 @@ type bmon struct {
 	nPass  int // decided must-pass observations
 	nAmbig int
 	last   struct{ mustDrop, mustPass, drop bool }
+	// lastCtx / lastStart: context and receive time of the last query;
+	// respWithReqCtx makes countResp use them (as the middleware does: the
+	// response of a request is counted with that request's context).
+	lastCtx        context.Context
+	lastStart      int64
+	respWithReqCtx bool
 }
 
 func newMon(r *vkit.Run, fam string, idx int, c bcfg) *bmon {
@@ -555,8 +570,15 @@ func newMon(r *vkit.Run, fam string, idx int, c bcfg) *bmon {
 
 // now returns the wall clock in ns (the clock the code under test reads) and
 // notes when it does not advance together with the monotonic clock.
-func (m *bmon) now() int64 {
-	t := time.Now()
+func (m *bmon) now() int64 { return m.stamp(time.Now()) }
+
+// reqCtx is the context a real server hands to its handlers: it carries
+// dnsserver.RequestInfo with the time at which the request was received.
+func reqCtx(start time.Time) context.Context {
+	return dnsserver.ContextWithRequestInfo(ctxBG, &dnsserver.RequestInfo{StartTime: start})
+}
+
+func (m *bmon) stamp(t time.Time) int64 {
 	wall := t.UnixNano()
 	drift := (wall - m.t0.UnixNano()) - int64(t.Sub(m.t0))
 	if drift > int64(stepTol) || drift < -int64(stepTol) {
@@ -617,6 +639,17 @@ func (m *bmon) allowed(ip netip.Addr) bool {
 func (ks *keyModel) loWithoutRespOver(a, ivl int64) (lo int) {
 	for _, e := range ks.events {
 		if !e.opt && !e.resp && a-e.B < ivl-eps {
+			lo++
+		}
+	}
+	return lo
+}
+
+// loWithoutLagged is the certain window count without the events that were
+// counted with a request context older than the call.
+func (ks *keyModel) loWithoutLagged(a, ivl int64) (lo int) {
+	for _, e := range ks.events {
+		if !e.opt && !e.lagged && a-e.B < ivl-eps {
 			lo++
 		}
 	}
@@ -709,8 +742,11 @@ func mkReq(qt uint16) *dns.Msg {
 // query sends one query to the limiter and judges the verdict.
 func (m *bmon) query(ip netip.Addr, qt uint16) (dropped bool) {
 	req := mkReq(qt)
-	b := m.now()
-	drop, allow, err := m.l.IsRateLimited(ctxBG, req, ip)
+	tStart := time.Now()
+	ctx := reqCtx(tStart)
+	b := m.stamp(tStart)
+	m.lastCtx, m.lastStart = ctx, b
+	drop, allow, err := m.l.IsRateLimited(ctx, req, ip)
 	a := m.now()
 	m.r.Bucket("l2_queries", 1)
 	rec := traceRec{Op: "query", IP: ip.String(), QType: qtypeName[qt], BeforeU: m.us(b), AfterU: m.us(a), Drop: &drop, Allow: &allow}
@@ -736,7 +772,7 @@ func (m *bmon) query(ip netip.Addr, qt uint16) (dropped bool) {
 			m.nDrop++
 		}
 		ks := m.key(k)
-		ks.events = append(ks.events, mEvent{span{b, a}, true, false})
+		ks.events = append(ks.events, mEvent{span{b, a}, true, false, false})
 		return drop
 	}
 	if isAllowed {
@@ -752,7 +788,7 @@ func (m *bmon) query(ip netip.Addr, qt uint16) (dropped bool) {
 			m.viol("allowlist:flag-missing", "an allow-listed client was not reported as allow-listed", nil)
 		}
 		ks := m.key(k)
-		ks.events = append(ks.events, mEvent{span{b, a}, true, false})
+		ks.events = append(ks.events, mEvent{span{b, a}, true, false, false})
 		return drop
 	}
 	if allow {
@@ -783,6 +819,9 @@ func (m *bmon) query(ip netip.Addr, qt uint16) (dropped bool) {
 			if !certainBO && ks.loWithoutRespOver(a, ivl) < n {
 				m.r.Bucket("l2_large_resp_window_drop", 1)
 			}
+			if !certainBO && ks.loWithoutLagged(a, ivl) < n {
+				m.r.Bucket("l2_slow_handler_window_drop", 1)
+			}
 			break
 		}
 		extra := map[string]any{"limit": n, "certainly_in_window": lo, "possibly_in_window": hi, "certainly_in_backoff": certainBO, "recent_over_limit_events": recent}
@@ -796,6 +835,10 @@ func (m *bmon) query(ip netip.Addr, qt uint16) (dropped bool) {
 			extra["since_first_counted_event_of_subnet_max"] = time.Duration(a - ks.first.B).String()
 			m.viol("backoff:window-forgotten-on-counter-expiry",
 				"a query passed although its subnet already had `limit` events within the interval; the subnet's first counted event is at least backoff_period old (per-subnet counter entry expired and the window was forgotten)", extra)
+		case ks.loWithoutLagged(a, ivl) < n:
+			extra["certainly_in_window_without_events_counted_with_an_older_request_context"] = ks.loWithoutLagged(a, ivl)
+			m.viol("backoff:response-events-stamped-with-request-start-time",
+				"a query passed although its subnet has `limit` or more events within the interval; the events of a response that a slow handler produced within the interval only count when they are placed at the request's receive time (RequestInfo.StartTime of the context) instead of the time they were counted", extra)
 		case ks.loWithoutRespOver(a, ivl) < n:
 			extra["certainly_in_window_without_over_limit_response_units"] = ks.loWithoutRespOver(a, ivl)
 			m.viol("backoff:large-response-units-not-counted-after-limit",
@@ -833,13 +876,13 @@ func (m *bmon) query(ip netip.Addr, qt uint16) (dropped bool) {
 		m.nAmbig++
 		m.r.Bucket("l2_ambiguous", 1)
 	}
-	ev := mEvent{span{b, a}, drop && possibleBO, false}
+	ev := mEvent{span{b, a}, drop && possibleBO, false, false}
 	ks.events = append(ks.events, ev)
 	if ks.first == nil && !(drop && possibleBO) {
 		ks.first = &span{b, a}
 	}
 	if drop {
-		ks.hits = append(ks.hits, mEvent{span{b, a}, possibleBO, false})
+		ks.hits = append(ks.hits, mEvent{span{b, a}, possibleBO, false, false})
 	}
 	return drop
 }
@@ -886,11 +929,21 @@ func (m *bmon) countResp(ip netip.Addr, size int) {
 	if sizes[1] < est {
 		kmin, kmax = 0, 0
 	}
-	b := m.now()
-	m.l.CountResponses(ctxBG, resp, ip)
+	tStart := time.Now()
+	ctx, start := reqCtx(tStart), int64(0)
+	b := m.stamp(tStart)
+	if m.respWithReqCtx && m.lastCtx != nil {
+		ctx, start = m.lastCtx, m.lastStart
+	}
+	lagged := start != 0 && b-start > eps
+	m.l.CountResponses(ctx, resp, ip)
 	a := m.now()
 	n, ivl, k := m.params(ip)
-	rec := traceRec{Op: fmt.Sprintf("count_response(%d..%d events)", kmin, kmax), IP: ip.String(), Size: wire, BeforeU: m.us(b), AfterU: m.us(a)}
+	op := "count_response"
+	if lagged {
+		op = fmt.Sprintf("count_response[request received %s earlier]", time.Duration(b-start).Round(time.Millisecond))
+	}
+	rec := traceRec{Op: fmt.Sprintf("%s(%d..%d events)", op, kmin, kmax), IP: ip.String(), Size: wire, BeforeU: m.us(b), AfterU: m.us(a)}
 	ks := m.key(k)
 	allOpt := m.allowed(ip)
 	for j := 0; j < kmax; j++ {
@@ -901,9 +954,9 @@ func (m *bmon) countResp(ip netip.Addr, size int) {
 		// over-limit event of the subnet; otherwise it only may be one.
 		opt := allOpt || possibleBO || j >= kmin
 		if hi >= n {
-			ks.hits = append(ks.hits, mEvent{span{b, a}, opt || lo < n, true})
+			ks.hits = append(ks.hits, mEvent{span{b, a}, opt || lo < n, true, false})
 		}
-		ks.events = append(ks.events, mEvent{span{b, a}, opt, lo >= n})
+		ks.events = append(ks.events, mEvent{span{b, a}, opt, lo >= n, lagged})
 		m.r.Bucket("l2_countresp_events", 1)
 	}
 	if kmax > 0 && ks.first == nil && !allOpt {
@@ -1479,6 +1532,58 @@ func largeRespCase(r *vkit.Run, i int) {
 	}
 }
 
+// ---- family: slow handler: the response is counted when it is produced
+
+func layer2SlowHandler(r *vkit.Run) {
+	cases := r.N(24, 160)
+	parallel(cases, 24, func(i int) { guard(r, "backoff-slow-handler", i, func() { slowHandlerCase(r, i) }) })
+}
+
+func slowHandlerCase(r *vkit.Run, i int) {
+	g := r.Rand("l2slow", i)
+	est := uint64(100)
+	n := uint(2 + g.IntN(2))
+	ivl := 300 * time.Millisecond
+	c := bcfg{N4: n, N6: n, I4: ivl, I6: ivl, Period: hour, Duration: hour, K4: 24, K6: 48, Count: noBackoff, Est: est}
+	v6 := g.IntN(3) == 0
+	a, by := rand4(g), rand6(g)
+	if v6 {
+		a, by = rand6(g), rand4(g)
+	}
+	k := int(n) + g.IntN(3)
+	m := newMon(r, "slow-handler", i, c)
+	m.respWithReqCtx = true
+	// the request arrives (1 event), its handler needs 0.6 interval and
+	// produces a response of k >= n estimates (k events, counted with the
+	// request's context); 0.6 interval later the request's own event has left
+	// the window, the response's events have not: dropped.
+	// An attempt whose probe is undecidable (the machine stretched a sleep so
+	// far that the response's events may have left the window) is repeated
+	// with a fresh subnet, at most twice.
+	for attempt := 0; attempt < 3; attempt++ {
+		if attempt > 0 {
+			r.Bucket("l2_slow_handler_retries", 1)
+			a = rand4(g)
+			if v6 {
+				a = rand6(g)
+			}
+		}
+		m.query(a, dns.TypeA)
+		m.sleep(ivl * 6 / 10)
+		m.countResp(a, k*int(est)+int(est)/3)
+		m.sleep(ivl * 6 / 10)
+		m.query(a, dns.TypeA)
+		if m.last.mustDrop {
+			break
+		}
+	}
+	m.query(by, dns.TypeA)
+	if i == 0 {
+		r.Sample(map[string]any{"layer": 2, "family": "slow-handler", "config": c.witness(), "ops": m.trace})
+	}
+	m.finish(fmt.Sprintf("L2slow/n%d/k%d/v6=%v", n, k, v6))
+}
+
 // ---- family: concurrent queries to one Backoff (race detector + totals)
 
 func layer2Concurrent(r *vkit.Run) {
@@ -1649,7 +1754,7 @@ func profileCase(r *vkit.Run, i int) {
 		default:
 			r.Bucket("l3_profile_ambiguous", 1)
 		}
-		ks.events = append(ks.events, mEvent{span{b, a}, false, false})
+		ks.events = append(ks.events, mEvent{span{b, a}, false, false, false})
 	}
 	for round := 0; round < 2; round++ {
 		for j := 0; j < int(rps)+2; j++ {
@@ -1672,7 +1777,7 @@ func profileCase(r *vkit.Run, i int) {
 				l.CountResponses(ctxBG, resp, in4)
 				a := now()
 				for j := 0; j < k; j++ {
-					ks.events = append(ks.events, mEvent{span{b, a}, false, false})
+					ks.events = append(ks.events, mEvent{span{b, a}, false, false, false})
 				}
 				trace = append(trace, traceRec{Op: fmt.Sprintf("count_response(%d events)", k), Size: wire})
 			} else {
@@ -1715,6 +1820,7 @@ type stack struct {
 	plain, dot dnsserver.Handler
 	terminal   atomic.Int64
 	respSize   atomic.Int64
+	delay      atomic.Int64 // ns the terminal handler needs to produce its response
 	errs       atomic.Int64
 	prof       *agd.Profile
 	profIPs    map[netip.Addr]bool
@@ -1780,6 +1886,9 @@ func newStack(t testing.TB, global ratelimit.Interface, profLimiter agd.Ratelimi
 	}
 	terminal := dnsserver.HandlerFunc(func(ctx context.Context, rw dnsserver.ResponseWriter, req *dns.Msg) error {
 		s.terminal.Add(1)
+		if d := s.delay.Load(); d > 0 {
+			time.Sleep(time.Duration(d))
+		}
 		resp, _ := mkResp(req.Question[0].Qtype, int(s.respSize.Load()))
 		resp.Id = req.Id
 		return rw.WriteMsg(ctx, req, resp)
@@ -1859,16 +1968,178 @@ type stackLimiter struct {
 	inner   ratelimit.Interface
 	checks  atomic.Int64
 	counted atomic.Int64
+
+	// wall-clock stamps around the last inner calls and the length of the last
+	// counted response
+	mu        sync.Mutex
+	lastCheck span
+	lastCount span
+	lastLen   int
 }
 
 func (l *stackLimiter) IsRateLimited(ctx context.Context, req *dns.Msg, ip netip.Addr) (bool, bool, error) {
 	l.checks.Add(1)
-	return l.inner.IsRateLimited(ctx, req, ip)
+	b := time.Now().UnixNano()
+	drop, allow, err := l.inner.IsRateLimited(ctx, req, ip)
+	a := time.Now().UnixNano()
+	l.mu.Lock()
+	l.lastCheck = span{b, a}
+	l.mu.Unlock()
+	return drop, allow, err
 }
 
 func (l *stackLimiter) CountResponses(ctx context.Context, resp *dns.Msg, ip netip.Addr) {
 	l.counted.Add(1)
+	n := resp.Len()
+	b := time.Now().UnixNano()
 	l.inner.CountResponses(ctx, resp, ip)
+	a := time.Now().UnixNano()
+	l.mu.Lock()
+	l.lastCount, l.lastLen = span{b, a}, n
+	l.mu.Unlock()
+}
+
+func (l *stackLimiter) last() (check, count span, respLen int) {
+	l.mu.Lock()
+	defer l.mu.Unlock()
+	return l.lastCheck, l.lastCount, l.lastLen
+}
+
+// layer3StackSlow: through the whole middleware, a slow terminal handler
+// returns a large response; the response's events are counted when it is
+// produced, so a query 0.6 interval later is dropped although the request
+// itself was received more than one interval ago.
+func layer3StackSlow(r *vkit.Run) {
+	cases := r.N(12, 48)
+	type slowCase struct {
+		s   *stack
+		gl  *stackLimiter
+		c   bcfg
+		ips []netip.Addr // one fresh client per attempt
+		k   int
+		idx int
+	}
+	var list []slowCase
+	for i := 0; i < cases; i++ {
+		g := r.Rand("l3slow", i)
+		n := uint(2 + g.IntN(2))
+		c := bcfg{N4: n, N6: n, I4: 500 * time.Millisecond, I6: 500 * time.Millisecond, Period: hour, Duration: hour, K4: 24, K6: 48, Count: noBackoff, Est: 120}
+		inner, _ := newBackoff(c)
+		gl := &stackLimiter{inner: inner}
+		s, err := newStack(theT, gl, agd.GlobalRatelimiter{}, nil)
+		if err != nil {
+			r.Inconclusive("layer 3: dnssvc.NewHandlers failed: " + err.Error())
+			return
+		}
+		ips := []netip.Addr{rand4(g), rand4(g), rand4(g)}
+		if i%3 == 2 {
+			ips = []netip.Addr{rand6(g), rand6(g), rand6(g)}
+		}
+		list = append(list, slowCase{s, gl, c, ips, int(n) + g.IntN(3), i})
+	}
+	parallel(len(list), len(list), func(x int) {
+		sc := list[x]
+		guard(r, "stack-slow", sc.idx, func() {
+			// An undecidable attempt (sleeps stretched by the machine) is
+			// repeated with a fresh client, at most twice.
+			for attempt, ip := range sc.ips {
+				if attempt > 0 {
+					r.Bucket("l3_stack_slow_retries", 1)
+				}
+				if stackSlowAttempt(r, sc.s, sc.gl, sc.c, ip, sc.k, sc.idx, uint16(2*attempt)) {
+					break
+				}
+			}
+		})
+	})
+}
+
+// stackSlowAttempt reports whether the attempt was decided.
+func stackSlowAttempt(r *vkit.Run, st *stack, gl *stackLimiter, c bcfg, ip netip.Addr, k, idx int, id0 uint16) (decided bool) {
+	type scT struct {
+		s   *stack
+		gl  *stackLimiter
+		c   bcfg
+		ip  netip.Addr
+		k   int
+		idx int
+	}
+	sc := scT{st, gl, c, ip, k, idx}
+	{
+		{
+			trace := map[string]any{}
+			n, ivl, est := int(sc.c.N4), int64(sc.c.I4), int(sc.c.Est)
+			t0 := time.Now()
+			stepped := false
+			chk := func() {
+				t := time.Now()
+				if d := (t.UnixNano() - t0.UnixNano()) - int64(t.Sub(t0)); d > int64(stepTol) || d < -int64(stepTol) {
+					stepped = true
+				}
+			}
+			us := func(w int64) int64 { return (w - t0.UnixNano()) / 1000 }
+			cls := fmt.Sprintf("L3slow/n%d/k%d/v6=%v", n, sc.k, sc.ip.Is6())
+			sc.s.respSize.Store(int64(sc.k*est + est/3))
+			sc.s.delay.Store(int64(sc.c.I4 * 6 / 10))
+			ran1, w1, _ := sc.s.serve(false, sc.ip, dns.TypeA, id0+1)
+			chk()
+			check1, count1, respLen := sc.gl.last()
+			sc.s.delay.Store(0)
+			sc.s.respSize.Store(50)
+			time.Sleep(sc.c.I4 * 6 / 10)
+			ran2, w2, _ := sc.s.serve(false, sc.ip, dns.TypeA, id0+2)
+			chk()
+			check2, _, _ := sc.gl.last()
+			r.Bucket("l3_stack_requests", 2)
+			trace = map[string]any{"case_index": sc.idx, "attempt": id0 / 2, "global": sc.c.witness(), "client": sc.ip.String(),
+				"request_1": map[string]any{"limiter_check_us": []int64{us(check1.B), us(check1.A)}, "handler_delay": (sc.c.I4 * 6 / 10).String(),
+					"response_len": respLen, "response_counted_us": []int64{us(count1.B), us(count1.A)}, "terminal_ran": ran1, "messages_written": w1},
+				"request_2": map[string]any{"limiter_check_us": []int64{us(check2.B), us(check2.A)}, "terminal_ran": ran2, "messages_written": w2}}
+			if stepped {
+				r.Bucket("cases_discarded_clock_step", 1)
+				r.Eval(cls, false)
+				return false
+			}
+			if ran1 != 1 || w1 != 1 {
+				r.Violation("stack:global:dropped", "the first query of a fresh subnet was not served", trace)
+				r.Eval(cls, false)
+				return true
+			}
+			ks := &keyModel{events: []mEvent{{span: check1}}}
+			for j := 0; j < (respLen+est-1)/est && respLen >= est; j++ {
+				ks.events = append(ks.events, mEvent{span: count1, opt: j >= respLen/est, lagged: true})
+			}
+			lo, hi := ks.window(check2.B, check2.A, ivl)
+			trace["certainly_in_window"], trace["possibly_in_window"], trace["limit"] = lo, hi, n
+			switch {
+			case lo >= n:
+				if ran2 == 0 && w2 == 0 {
+					r.Bucket("l3_stack_dropped_silently", 1)
+					if ks.loWithoutLagged(check2.A, ivl) < n {
+						r.Bucket("l3_stack_slow_handler_dropped", 1)
+					}
+				} else {
+					key := "stack:global:served"
+					if ks.loWithoutLagged(check2.A, ivl) < n {
+						key = "stack:slow-handler:served"
+					}
+					r.Violation(key, "a plain-DNS query was served although its subnet has `limit` or more events within the interval: the events of a large response that a slow handler produced within the interval (the request itself was received more than one interval ago)", trace)
+				}
+			case hi < n:
+				r.Bucket("l3_stack_slow_window_slid_out", 1)
+				if ran2 != 1 || w2 != 1 {
+					r.Violation("stack:global:dropped", "a plain-DNS query was dropped although its subnet has fewer than `limit` events within the interval", trace)
+				}
+			default:
+				r.Bucket("l3_stack_ambiguous", 1)
+			}
+			if sc.idx == 0 {
+				r.Sample(map[string]any{"layer": 3, "family": "stack-slow-handler", "trace": trace})
+			}
+			r.Eval(cls, lo >= n)
+			return lo >= n
+		}
+	}
 }
 
 func layer3Stack(r *vkit.Run) {
